@@ -3,8 +3,8 @@
    parent, exactly once in its child list" holds by construction of the data type; what
    needs proof is that the implementation-shaped algorithms (worklist iteration,
    generation-wise descendants, level/parent tables, id assignment) agree with it. *)
-From Coq Require Import ZArith List Bool Permutation.
-From Dendro Require Import Base Tree Grid Criteria Compute ComputeInv ComputeThm Forest Concrete.
+From Coq Require Import ZArith List Bool Permutation Sorted.
+From Dendro Require Import Base BaseLemmas Tree Grid Criteria Compute ComputeInv ComputeThm Forest Concrete.
 Import ListNotations.
 Open Scope Z_scope.
 
@@ -77,3 +77,10 @@ Theorem C02_branch_arity_generic :
     Forall arity_ok (fnodes (make_trunk indep (run adj indep order))).
 Proof. exact trunk_arity. Qed.
 Print Assumptions C02_branch_arity_generic.
+
+(* the trunk list (hence the iteration order above and the Newick text) is in the order of the
+   final identifiers, for compute on any adjacency (fix F35) *)
+Theorem C02_trunk_in_identifier_order :
+  forall shape a vals minv cs, StronglySorted (key_le tid) (compute shape a vals minv cs).
+Proof. intros. unfold compute. apply sort_by_sorted. Qed.
+Print Assumptions C02_trunk_in_identifier_order.
